@@ -139,6 +139,9 @@ func (s *sim) makeWithdraw(v *view, spec TxSpec) *txInfo {
 	}
 	ins := []outpoint{own[mod(sel0, len(own))]}
 	wf := &wdFacts{ver: mod(w.Ver, 3)}
+	if len(s.arbKeys) > 16 {
+		wf.ver = 2 // the multisig script forms name at most 16 keys
+	}
 	facts := &txFacts{signedBy: map[int]bool{}, wd: wf}
 	facts.signedBy[cc.idx] = true // the authority over the cross-chain address is judged by labelWithdraw
 	var payer *actor
